@@ -131,6 +131,10 @@ func (w *world) junk() interface{} {
 func (w *world) pickMode(good func() interface{}) (interface{}, error) {
 	k := w.r.Intn(100)
 	switch w.mode {
+	case 3:
+		// every resolver succeeds: the only thing that bounds the depth of the response is the document, so a
+		// document that validation should have rejected as cyclic recurses until the stack limit
+		return good(), nil
 	case 0:
 		if k < 88 {
 			return good(), nil
